@@ -134,7 +134,27 @@ func genC07(t *rapid.T, maxDepth int) c07Case {
 		}
 	}
 	var p rc.Pos
-	switch rapid.IntRange(0, 4).Draw(t, "src") {
+	switch rapid.IntRange(0, 6).Draw(t, "src") {
+	case 5: // a position one ply before a forced reply (only legal moves: ep evasion / interposing double step / promotion / <= 2 moves)
+		fc := hx.GenForced(t)
+		c.Play = hx.Playout{Start: fc.Fen}
+		if fc.Pred != "" && rapid.IntRange(0, 3).Draw(t, "fromPred") != 0 {
+			c.Play = hx.Playout{Start: fc.Pred}
+			if rapid.Bool().Draw(t, "played") {
+				c.Play.Moves = []string{fc.Move}
+			}
+		}
+		c.Depth = rapid.IntRange(2, 4).Draw(t, "fdepth")
+		c.Nodes = 40000
+		return c
+	case 6: // shuffle history: the tree meets second / third occurrences of positions
+		p = hx.GenStart(t, 8)
+		if pl, ok := hx.GenShuffleHistory(t, p, 3); ok {
+			c.Play = pl
+			c.Depth = rapid.IntRange(2, 4).Draw(t, "sdepth")
+			c.Nodes = 40000
+			return c
+		}
 	case 0:
 		p = hx.GenConstructed(t, 5)
 	case 1:
